@@ -269,6 +269,14 @@ func runC20(t *testing.T, seed uint64, planJSON []byte, tier string) (res *Resul
 				sim.Probe("c20-refresher-pass-not-observed")
 			}
 		}
+		var ys *yieldState
+		if *flagMode == "yield" {
+			if !yieldBuilt {
+				res.Harness = "mode yield needs the binary built from the instrumented copy (tag verifyield)"
+				return
+			}
+			ys = installYield(seed)
+		}
 		prof0 := profile()
 		g0 := runtime.NumGoroutine()
 		// the batch
@@ -319,6 +327,13 @@ func runC20(t *testing.T, seed uint64, planJSON []byte, tier string) (res *Resul
 			return
 		}
 		settle()
+		if ys != nil {
+			fired, sites := ys.stop()
+			sim.Note("scheduling points: %d delays at %d active sites", fired, sites)
+			for i := 0; i < fired; i++ {
+				sim.Fault("goroutine-delayed-at-lock")
+			}
+		}
 		mu.Lock()
 		defer mu.Unlock()
 		if len(errs) > 0 {
